@@ -9,9 +9,62 @@ simulate/loss/backward/step reference loop under the same seed (bitwise); the gr
 each step equals the gradient of that epoch's single batch (no accumulation); history length.
 correspondence (numbers): the real Hedger.fit vs the numeric model `fitNum` (Model/FitNum.lean, op "fit_num"): parameters
 after fit, per-epoch training losses, validation evaluations / history, gradients at the steps (check_fit_num).
+input classes of every entry (main loop, prev_hedge, fit_num): the call spelled with keywords, or with the documented leading options
+(hedge, n_epochs, n_paths, n_times[, optimizer, init_state, verbose, validation, tqdm_kwargs]) given BY POSITION; runs whose training /
+validation losses become inf / nan (learning rate far too large, overflowing exponential criterion; float64 and float32): still k steps,
+k returned losses = the explicit loop's (NaN matches NaN), same parameters.
 """
 import copy
+import math
 from common import *  # noqa
+
+# the DOCUMENTED order of fit's options (docstring "Args:" of Hedger.fit, after `derivative`): a caller may pass any prefix of them by
+# position.  Written down here from the documentation, not read off the signature under test.
+FIT_DOC_ORDER = ("hedge", "n_epochs", "n_paths", "n_times", "optimizer", "init_state", "verbose", "validation", "tqdm_kwargs")
+CALL_FORMS = {"keyword": 0, "positional_sim": 4, "positional": len(FIT_DOC_ORDER)}     # how many options go by position
+
+
+def gen_call_form(g):
+    return g.weighted([("keyword", 3), ("positional", 2), ("positional_sim", 1)])
+
+
+def call_fit(fit, d, form, **opts):
+    """hedger.fit(d, ...) with the first CALL_FORMS[form] options of the documented order given POSITIONALLY, the rest by keyword"""
+    npos = CALL_FORMS[form]
+    if npos == len(FIT_DOC_ORDER):
+        opts.setdefault("tqdm_kwargs", {})
+    lead = FIT_DOC_ORDER[:npos]
+    if any(nm not in opts for nm in lead):
+        raise InternalError(f"call_fit: positional form needs {lead}")
+    return call_impl(fit, d, *[opts[nm] for nm in lead], **{k_: v_ for k_, v_ in opts.items() if k_ not in lead})
+
+
+def same_tensor(torch, a, b, nan_ok=False):
+    """bitwise equality; with nan_ok a NaN matches a NaN (runs that diverge)"""
+    if a.shape != b.shape:
+        return False
+    if torch.equal(a, b):
+        return True
+    return bool(nan_ok and ((a == b) | (a.isnan() & b.isnan())).all())
+
+
+def history_entry_ok(h, vals, eps, fmax):
+    """h = the validation loss fit returned for an epoch, vals = the n_times individual evaluations of the explicit loop: h must be their
+    mean.  One evaluation: exactly (NaN matches NaN).  Several: NaN if one is NaN or both infinities occur, the infinity if one occurs,
+    otherwise |h - mean| <= 8 n eps max|v| (the order of the n additions is free); a sum that may overflow may also be infinite."""
+    if not isinstance(h, float):
+        return False
+    if len(vals) == 1:
+        return h == vals[0] or (math.isnan(h) and math.isnan(vals[0]))
+    if any(math.isnan(v) for v in vals) or (math.inf in vals and -math.inf in vals):
+        return math.isnan(h)
+    infs = [v for v in vals if math.isinf(v)]
+    if infs:
+        return h == infs[0]
+    m = max(abs(v) for v in vals)
+    if math.isinf(h):
+        return m * len(vals) >= fmax / 2
+    return abs(h - sum(vals) / len(vals)) <= 8 * len(vals) * eps * m
 
 
 def check(ctx):
@@ -51,20 +104,44 @@ def check(ctx):
         seed = g.randint(0, 10 ** 6)
         crit_name = g.choice(["erm", "es", "oce"])
         wide = g.chance(0.5)      # optimiser instance over hedger.parameters() (model AND criterion parameters) instead of the model's only
+        # how the caller spells the call: all options by keyword, or the documented leading options by position
+        call_form = gen_call_form(g)
+        # runs whose losses leave the finite range: a learning rate far too large ("lr": the parameters explode after the first step,
+        # the products of the layers overflow) or a model whose hedge is so large that an exponential criterion overflows on the very
+        # first batch ("scale").  The protocol does not depend on the numbers: still k steps, k validation losses (inf / nan among
+        # them), the same parameters as the explicit loop (NaN matching NaN)
+        diverge = g.weighted([(None, 5), ("lr", 1), ("scale", 1)])
+        dtc = g.choice([torch.float64, torch.float32]) if diverge else dt
+        lr = 0.01
+        if diverge == "lr":
+            lr = g.choice([1e150, 1e300]) if dtc == torch.float64 else g.choice([1e20, 1e30])
+        if diverge == "scale":
+            crit_name = g.choice(["oce", "eloss"])
+        if diverge == "lr" and crit_name == "oce" and wide and optkind == "instance":
+            lr = g.choice([1e20, 1e30])      # OCE owns a float32 parameter: torch refuses a step size beyond the float32 range
         if it < len(forced):
             f_ = forced[it]
             k, n_times, optkind, lazy, validation, hedge_list = f_["k"], f_["n_times"], f_["optkind"], f_["lazy"], f_["validation"], f_["hedge_list"]
         case = {"epochs": k, "n_paths": n_paths, "n_times": n_times, "with_init": with_init, "opt": optkind, "optimizer": optname,
-                "lazy": lazy, "validation": validation, "hedge_list": hedge_list, "seed": seed, "criterion": crit_name, "wide_optimizer": wide and optkind == "instance"}
+                "lazy": lazy, "validation": validation, "hedge_list": hedge_list, "seed": seed, "criterion": crit_name, "wide_optimizer": wide and optkind == "instance", "call_form": call_form}
+        if diverge:
+            case |= {"diverge": diverge, "dtype": str(dtc).replace("torch.", ""), "lr": lr}
+        # failure keys of the new input classes are their own call sites
+        sfx = ("" if call_form == "keyword" else ":positional") + (":nonfinite-loss" if diverge else "")
         events = []
 
         def build():
             torch.manual_seed(seed)
             if lazy:
-                model = torch.nn.Sequential(torch.nn.LazyLinear(3, dtype=dt), torch.nn.ReLU(), torch.nn.Linear(3, 1, dtype=dt))
+                model = torch.nn.Sequential(torch.nn.LazyLinear(3, dtype=dtc), torch.nn.ReLU(), torch.nn.Linear(3, 1, dtype=dtc))
             else:
-                model = torch.nn.Sequential(torch.nn.Linear(2, 3, dtype=dt), torch.nn.ReLU(), torch.nn.Linear(3, 1, dtype=dt))
-            crit = {"erm": lambda: nn.EntropicRiskMeasure(), "es": lambda: nn.ExpectedShortfall(0.5), "oce": lambda: OCE(exp_utility)}[crit_name]()
+                model = torch.nn.Sequential(torch.nn.Linear(2, 3, dtype=dtc), torch.nn.ReLU(), torch.nn.Linear(3, 1, dtype=dtc))
+            if diverge == "scale":
+                with torch.no_grad():
+                    model[2].weight *= 2.0 ** 40
+                    model[2].bias *= 2.0 ** 40
+            crit = {"erm": lambda: nn.EntropicRiskMeasure(), "es": lambda: nn.ExpectedShortfall(0.5), "oce": lambda: OCE(exp_utility),
+                    "eloss": lambda: nn.EntropicLoss()}[crit_name]()
             return model, crit
 
         class LogCrit(torch.nn.Module):
@@ -91,7 +168,7 @@ def check(ctx):
         class LogOpt(base_opt):
             def __init__(self, params, **kw):
                 events.append(["mk_optimizer"])
-                super().__init__(params, lr=0.01, **kw)
+                super().__init__(params, lr=lr, **kw)
                 self.grads_at_step = []
 
             def zero_grad(self, *a, **kw):
@@ -108,7 +185,7 @@ def check(ctx):
             ref = [None]
             hedger = Hedger(model, ["moneyness", "time_to_maturity"], criterion=LogCrit(crit, ref))
             ref[0] = hedger
-            stock = I.BrownianStock(cost=1e-3, dtype=dt)
+            stock = I.BrownianStock(cost=1e-3, dtype=dtc)
             d = LogOption(stock, maturity=3 / 250)
             d.ref = ref
             # train()/eval() logging
@@ -140,8 +217,8 @@ def check(ctx):
         torch.Tensor.backward = patched_backward
         try:
             torch.manual_seed(seed + 1)
-            st, hist, _ = call_impl(hedger.fit, d, hedge=hedge, n_epochs=k, n_paths=n_paths, n_times=n_times, optimizer=opt,
-                                    init_state=init_state, verbose=False, validation=validation)
+            st, hist, _ = call_fit(hedger.fit, d, call_form, hedge=hedge, n_epochs=k, n_paths=n_paths, n_times=n_times, optimizer=opt,
+                                   init_state=init_state, verbose=False, validation=validation)
         finally:
             torch.Tensor.backward = orig_backward
         # the lazy placeholder's compute_pl contains no loss evaluation; mark it from the simulate(1) event
@@ -153,28 +230,83 @@ def check(ctx):
         # each validation epoch ends with history.append: not observable as an event; derive from the returned history
         ctx.case(case, nontrivial=k >= 1, tag="fit")
         ctx.traces += 1
-        for key in ("opt", "lazy", "validation"):
+        for key in ("opt", "lazy", "validation", "call_form"):
             ctx.stats[f"{key}={case[key]}"] += 1
+        if diverge:
+            ctx.stats[f"diverge={diverge}"] += 1
         ctx.stats[f"epochs={k}"] += 1
         reqs.append({"op": "fit", "epochs": k, "n_paths": n_paths, "n_times": n_times, "with_init": with_init,
                      "opt": optkind, "lazy": lazy and optkind != "instance", "validation": validation, "start_training": True})
         metas.append((case, st, hist, evs))
+
+        def explicit_loop():
+            """the documented protocol written out: simulate / loss / backward / step per epoch, n_times validation evaluations without
+            gradients in evaluation mode, under the same seed.  An exception of torch / the optimiser itself is caught and reported"""
+            hedger2, d2, stock2, crit2 = make_hedger()
+            if lazy and optkind == "instance":
+                d2.simulate(n_paths=1)
+                hedger2.compute_pl(d2)
+            torch.manual_seed(seed + 1)
+            if lazy and optkind == "cls":
+                # fit materialises the lazy parameters by a placeholder simulate(1) + compute_pl AFTER the seed
+                # was set and BEFORE constructing the optimiser: replay exactly that
+                d2.simulate(n_paths=1)
+                hedger2.compute_pl(d2)
+            plist2 = list(hedger2.parameters()) if (wide and optkind == "instance") else list(hedger2.model.parameters())
+            ref_opt = base_opt(plist2, lr=lr)
+            hedge2 = [stock2] if hedge_list else None
+            ref_grads, ref_train, ref_vals = [], [], []
+            err = None
+            try:
+                for ep in range(k):
+                    hedger2.train()
+                    ref_opt.zero_grad()
+                    d2.simulate(n_paths=n_paths, init_state=init_state)
+                    loss = crit2(hedger2.compute_portfolio(d2, hedge=hedge2), d2.payoff())
+                    loss.backward()
+                    ref_train.append(float(loss.detach()))
+                    ref_grads.append([None if p.grad is None else p.grad.detach().clone() for p in plist2])
+                    ref_opt.step()
+                    if validation:
+                        hedger2.eval()
+                        with torch.no_grad():
+                            vals = []
+                            for _ in range(n_times):
+                                d2.simulate(n_paths=n_paths, init_state=init_state)
+                                vals.append(float(crit2(hedger2.compute_portfolio(d2, hedge=hedge2), d2.payoff())))
+                            ref_vals.append(vals)
+            except Exception as e:  # noqa
+                err = canon_error(e)
+            return hedger2, d2, crit2, hedge2, plist2, ref_grads, ref_train, ref_vals, err
         # ---------------- predicates on the real code
         if optkind == "other":
             if not (st == "err" and hist == "type_error"):
-                ctx.fail("fit accepted something that is not an optimiser", case, key="fit:optimizer-type", detail=str(hist)[:100])
+                ctx.fail("fit accepted something that is not an optimiser", case, key="fit:optimizer-type" + sfx, detail=str(hist)[:100])
             continue
         if st != "ok":
-            ctx.fail("fit raised", case, key="fit:error", detail=hist)
+            if diverge:
+                # does torch / the optimiser itself refuse the run (e.g. a learning rate that does not fit the dtype of a float32 criterion
+                # parameter)?  Then the explicit loop raises the same error and fit is not to blame
+                events_ref = events
+                events = []
+                ref_err = explicit_loop()[-1]
+                events = events_ref
+                if ref_err == hist:
+                    ctx.stats["diverge:explicit_loop_raises_too"] += 1
+                    reqs.pop()
+                    metas.pop()
+                    continue
+            ctx.fail("fit raised" + (" in a run whose losses become inf / nan (it must carry on for k epochs and return them)" if diverge else ""),
+                     case, key="fit:error" + sfx, detail={"error": hist, "optimiser_steps_done": sum(1 for e in evs if e[0] == "step")})
             continue
         nsteps = sum(1 for e in evs if e[0] == "step")
         if nsteps != k:
-            ctx.fail("fit did not perform exactly one optimiser step per epoch", case, key="fit:steps", detail={"steps": nsteps})
+            ctx.fail("fit did not perform exactly one optimiser step per epoch", case, key="fit:steps" + sfx, detail={"steps": nsteps})
         if validation:
             if not (isinstance(hist, list) and len(hist) == k):
-                ctx.fail("fit did not return one validation loss per epoch", case, key="fit:history", detail=str(hist)[:100])
+                ctx.fail("fit did not return one validation loss per epoch", case, key="fit:history" + sfx, detail=str(hist)[:100])
         elif hist is not None:
-            ctx.fail("fit returned a history although validation is off", case, key="fit:history", detail=str(hist)[:100])
+            ctx.fail("fit returned a history although validation is off", case, key="fit:history" + sfx, detail=str(hist)[:100])
         # the protocol read off the REAL event trace (independent of the model): the batch that is back-propagated is a fresh one of
         # the requested size / initial state, processed in training mode with gradients on; every other loss evaluation
         # (validation) runs in evaluation mode without gradients, n_times of them per epoch (accumulation across epochs is
@@ -204,52 +336,43 @@ def check(ctx):
             if bad is None and len(val_losses) != (k * n_times if validation else 0):
                 bad = (f"expected {k * n_times if validation else 0} validation evaluations (k epochs x n_times), saw {len(val_losses)}", -1)
         if bad is not None:
-            ctx.fail("fit departs from the documented protocol: " + bad[0], case | {"event_index": bad[1]}, key="fit:protocol-trace",
+            ctx.fail("fit departs from the documented protocol: " + bad[0], case | {"event_index": bad[1]}, key="fit:protocol-trace" + sfx,
                      detail={"events": evs[:60]})
         # reference loop under the same seed: parameters must agree bitwise
         events_ref = events
         events = []
-        hedger2, d2, stock2, crit2 = make_hedger()
-        if lazy and optkind == "instance":
-            d2.simulate(n_paths=1)
-            hedger2.compute_pl(d2)
-        torch.manual_seed(seed + 1)
-        if lazy and optkind == "cls":
-            # fit materialises the lazy parameters by a placeholder simulate(1) + compute_pl AFTER the seed
-            # was set and BEFORE constructing the optimiser: replay exactly that
-            d2.simulate(n_paths=1)
-            hedger2.compute_pl(d2)
-        plist2 = list(hedger2.parameters()) if (wide and optkind == "instance") else list(hedger2.model.parameters())
-        ref_opt = base_opt(plist2, lr=0.01)
-        hedge2 = [stock2] if hedge_list else None
-        ref_grads = []
-        for ep in range(k):
-            hedger2.train()
-            ref_opt.zero_grad()
-            d2.simulate(n_paths=n_paths, init_state=init_state)
-            loss = crit2(hedger2.compute_portfolio(d2, hedge=hedge2), d2.payoff())
-            loss.backward()
-            ref_grads.append([None if p.grad is None else p.grad.detach().clone() for p in plist2])
-            ref_opt.step()
-            if validation:
-                hedger2.eval()
-                with torch.no_grad():
-                    for _ in range(n_times):
-                        d2.simulate(n_paths=n_paths, init_state=init_state)
+        hedger2, d2, crit2, hedge2, plist2, ref_grads, ref_train, ref_vals, ref_err = explicit_loop()
+        if ref_err is not None:
+            ctx.fail("fit returned normally where the explicit simulate/loss/backward/step loop under the same seed raises", case,
+                     key="fit:reference-loop" + sfx, detail={"explicit_loop_error": ref_err, "epochs_done": len(ref_train)})
+            continue
+        nonfinite = not all(math.isfinite(v) for v in ref_train + [v for vs in ref_vals for v in vs])
+        if diverge:
+            ctx.stats["diverge:loss_really_nonfinite" if nonfinite else "diverge:losses_stayed_finite"] += 1
+            if nonfinite and validation and not all(math.isfinite(v) for vs in ref_vals for v in vs):
+                ctx.stats["diverge:validation_loss_nonfinite"] += 1
+        # the returned history = the means of the explicit loop's n_times evaluations, epoch by epoch (inf / nan included)
+        if validation and isinstance(hist, list) and len(hist) == k:
+            fi = torch.finfo(dtc)
+            for ep, (h, vals) in enumerate(zip(hist, ref_vals)):
+                if not history_entry_ok(h, vals, fi.eps, fi.max):
+                    ctx.fail("a validation loss returned by fit is not the mean of the n_times evaluations of the explicit loop under the same seed",
+                             case | {"epoch": ep}, key="fit:history-values" + sfx, detail={"returned": h, "explicit_loop_evaluations": vals})
+                    break
         p1 = [p.detach() for p in hedger.parameters()]
         p2 = [p.detach() for p in hedger2.parameters()]
-        if len(p1) != len(p2) or any(a.shape != b.shape or not torch.equal(a, b) for a, b in zip(p1, p2)):
+        if len(p1) != len(p2) or any(not same_tensor(torch, a, b, nan_ok=bool(diverge)) for a, b in zip(p1, p2)):
             ctx.fail("parameters after fit differ from an explicit simulate/loss/backward/step loop under the same seed", case,
-                     key="fit:reference-loop", detail={"max_abs_diff": max(float((a - b).abs().max()) for a, b in zip(p1, p2)) if len(p1) == len(p2) else None})
+                     key="fit:reference-loop" + sfx, detail={"max_abs_diff": max(float((a - b).abs().max()) for a, b in zip(p1, p2)) if len(p1) == len(p2) else None})
         # a SECOND fit on the same hedger with the optimiser given as a class: a fresh optimiser must be constructed again (no
         # state - Adam moments, step counts - may survive from the first call)
         if optkind == "cls" and k >= 1 and st == "ok" and g.chance(0.5):
             ctx.stats["second_fit"] += 1
             torch.manual_seed(seed + 2)
-            st_b, hist_b, _ = call_impl(hedger.fit, d, hedge=hedge, n_epochs=k, n_paths=n_paths, n_times=n_times, optimizer=opt,
-                                        init_state=init_state, verbose=False, validation=validation)
+            st_b, hist_b, _ = call_fit(hedger.fit, d, call_form, hedge=hedge, n_epochs=k, n_paths=n_paths, n_times=n_times, optimizer=opt,
+                                       init_state=init_state, verbose=False, validation=validation)
             torch.manual_seed(seed + 2)
-            ref_opt_b = base_opt(list(hedger2.model.parameters()), lr=0.01)
+            ref_opt_b = base_opt(list(hedger2.model.parameters()), lr=lr)
             for ep in range(k):
                 hedger2.train()
                 ref_opt_b.zero_grad()
@@ -264,16 +387,16 @@ def check(ctx):
                             d2.simulate(n_paths=n_paths, init_state=init_state)
             q1 = [p.detach() for p in hedger.parameters()]
             q2 = [p.detach() for p in hedger2.parameters()]
-            if st_b != "ok" or len(q1) != len(q2) or any(a.shape != b.shape or not torch.equal(a, b) for a, b in zip(q1, q2)):
+            if st_b != "ok" or len(q1) != len(q2) or any(not same_tensor(torch, a, b, nan_ok=bool(diverge)) for a, b in zip(q1, q2)):
                 ctx.fail("a second fit() on the same hedger differs from an explicit loop with a freshly constructed optimiser (optimiser state carried over?)",
-                         case | {"second_fit": True}, key="fit:second-fit",
+                         case | {"second_fit": True}, key="fit:second-fit" + sfx,
                          detail={"max_abs_diff": max(float((a - b).abs().max()) for a, b in zip(q1, q2)) if len(q1) == len(q2) and st_b == "ok" else str(hist_b)[:80]})
         the_opt = opt if optkind == "instance" else None
         if the_opt is not None and len(the_opt.grads_at_step) == len(ref_grads):
             for ep, (ga, gb) in enumerate(zip(the_opt.grads_at_step, ref_grads)):
-                if len(ga) != len(gb) or any((x is None) != (y is None) or (x is not None and not torch.equal(x, y)) for x, y in zip(ga, gb)):
+                if len(ga) != len(gb) or any((x is None) != (y is None) or (x is not None and not same_tensor(torch, x, y, nan_ok=bool(diverge))) for x, y in zip(ga, gb)):
                     ctx.fail("the gradient applied at an optimiser step is not the gradient of that epoch's single batch (accumulation?)",
-                             case | {"epoch": ep}, key="fit:gradient-per-step")
+                             case | {"epoch": ep}, key="fit:gradient-per-step" + sfx)
                     break
         events = events_ref
     check_prev_hedge(ctx, torch, g)
@@ -310,6 +433,10 @@ def check(ctx):
              "returned history and the gradient at every optimiser step, relative tolerance 1e-9 on the max-norm; step and evaluation "
              "counts exactly; cases within 2^-20 of a kink (|position change| / |first position| with a non-zero cost rate, ReLU, ES tie) "
              "or, for Adam, with a gradient component in (0, 1e-6) are rejected and counted (fit_num_rejected_near_kink); "
+             "call forms (all three loops): keywords / hedge, n_epochs, n_paths, n_times by position / all nine documented options by position; "
+             "diverging runs (main loop: float64 and float32, SGD/Adam lr in {1e150, 1e300} resp. {1e20, 1e30}, or last layer x 2^40 under "
+             "OCE(exp) / EntropicLoss: steps, history length, history values = means of the explicit loop's evaluations with inf / nan, parameters "
+             "and step gradients bitwise with NaN = NaN; fit_num: counts exactly, numbers up to the first quantity that is non-finite or beyond 1e100); "
              "non-trivial = k>=1; distinct = sha1 of canonical case")
 
 
@@ -389,7 +516,9 @@ def check_prev_hedge(ctx, torch, g):
         cost = g.choice([0.0, 2.0 ** -10, 2.0 ** -7, 3 * 2.0 ** -9])
         with_init = g.chance(0.3)
         seed = g.randint(0, 10 ** 6)
-        case = {"prev_hedge": True, "inputs": names, "epochs": k, "n_paths": n_paths, "n_steps": n_steps, "n_times": n_times,
+        call_form = gen_call_form(g)
+        sfx = "" if call_form == "keyword" else ":positional"
+        case = {"prev_hedge": True, "call_form": call_form, "inputs": names, "epochs": k, "n_paths": n_paths, "n_steps": n_steps, "n_times": n_times,
                 "validation": validation, "opt": optkind, "optimizer": optname, "lr": lr, "criterion": crit_name, "width": width,
                 "activation": act, "prev_hedge_gain": gain, "call": call, "strike": strike, "cost": cost, "with_init": with_init, "seed": seed}
         ctx.case(case, nontrivial=True, tag="fit_prev_hedge")
@@ -426,19 +555,23 @@ def check_prev_hedge(ctx, torch, g):
                 return super().step(*a, **kw)
         opt = HandOpt if optkind == "cls" else HandOpt(model.parameters())
         torch.manual_seed(seed + 1)
-        st, hist, _ = call_impl(hedger.fit, d, n_epochs=k, n_paths=n_paths, n_times=n_times, optimizer=opt, init_state=init_state,
-                                verbose=False, validation=validation)
+        st, hist, _ = call_fit(hedger.fit, d, call_form, hedge=None, n_epochs=k, n_paths=n_paths, n_times=n_times, optimizer=opt,
+                               init_state=init_state, verbose=False, validation=validation)
+        ctx.stats[f"prev_hedge:call_form={call_form}"] += 1
         if st != "ok":
-            ctx.fail("fit raised for a hedger with prev_hedge among its inputs", case, key="fit:prev-hedge:error", detail=hist)
+            ctx.fail("fit raised for a hedger with prev_hedge among its inputs", case, key="fit:prev-hedge:error" + sfx, detail=hist)
             continue
         if len(steps) != k:
-            ctx.fail("fit did not perform exactly one optimiser step per epoch", case, key="fit:steps", detail={"steps": len(steps)})
+            ctx.fail("fit did not perform exactly one optimiser step per epoch", case, key="fit:steps" + sfx, detail={"steps": len(steps)})
+            continue
+        if (hist is None) != (not validation) or (validation and len(hist) != k):
+            ctx.fail("fit did not return one validation loss per epoch (None when validation is off)", case, key="fit:history" + sfx, detail=str(hist)[:100])
             continue
         # (a) the gradient present at every optimiser step = gradient of the hand-unrolled loss of that batch at those parameters
         for ep, (present, hand, _) in enumerate(steps):
             if any(x is None for x in present) or any(x is None for x in hand):
                 ctx.fail("a parameter of the model has no gradient at an optimiser step of fit (hedger with prev_hedge)", case | {"epoch": ep},
-                         key="fit:prev-hedge:gradient-missing")
+                         key="fit:prev-hedge:gradient-missing" + sfx)
                 break
             diff, scale = max_rel_diff(present, hand)
             ctx.stats["prev_hedge:steps_compared"] += 1
@@ -447,7 +580,7 @@ def check_prev_hedge(ctx, torch, g):
             if not diff <= RTOL * scale:
                 ctx.fail("the gradient applied at an optimiser step of fit is not the gradient of the criterion over that batch: it differs from "
                          "the gradient of the loss with the hedge unrolled by hand (previous hedge fed back as an input)", case | {"epoch": ep},
-                         key="fit:gradient-per-step:hand-unrolled", detail={"max_abs_diff": diff, "max_abs_gradient": scale})
+                         key="fit:gradient-per-step:hand-unrolled" + sfx, detail={"max_abs_diff": diff, "max_abs_gradient": scale})
                 break
         # (b) parameters after fit = parameters after the explicit simulate / hand-unrolled loss / backward / step loop, same seed
         model2, crit2, d2 = build()
@@ -472,7 +605,7 @@ def check_prev_hedge(ctx, torch, g):
             ctx.extra["prev_hedge_max_rel_parameter_diff"] = max(ctx.extra.get("prev_hedge_max_rel_parameter_diff", 0.0), diff / scale)
         if not diff <= RTOL * scale:
             ctx.fail("parameters after fit differ from an explicit simulate/loss/backward/step loop under the same seed whose loss unrolls the "
-                     "hedge by hand (hedger with prev_hedge among its inputs)", case, key="fit:reference-loop:hand-unrolled",
+                     "hedge by hand (hedger with prev_hedge among its inputs)", case, key="fit:reference-loop:hand-unrolled" + sfx,
                      detail={"max_abs_diff": diff, "max_abs_parameter": scale})
 
 
@@ -497,7 +630,8 @@ def check_fit_num(ctx, torch):
     dt = torch.float64
     RTOL = 1e-9
     KINK = 2.0 ** -20
-    want = 30 if ctx.tier == "quick" else 300
+    want = 36 if ctx.tier == "quick" else 360
+    BIG = 1e100          # a run that diverges: numbers are compared with the model up to the first epoch that leaves [-BIG, BIG]
     FEATS = {"moneyness": ["moneyness", False], "log_moneyness": ["moneyness", True], "time_to_maturity": ["time_to_maturity"],
              "volatility": ["volatility"], "underlier_spot": ["underlier_spot", False], "prev_hedge": ["prev_hedge"]}
     reqs, metas = [], []
@@ -539,7 +673,18 @@ def check_fit_num(ctx, torch):
         pa, pb = g.choice([1.0, 2.0, 0.5]), g.choice([0.0, 1.0, -0.25])
         with_init = g.chance(0.3)
         seed = g.randint(0, 10 ** 6)
-        case = {"fit_num": True, "epochs": k, "n_paths": n_paths, "n_steps": n_steps, "n_times": n_times, "validation": validation,
+        call_form = gen_call_form(g)
+        # runs that leave the finite range (see the main loop): a learning rate far too large, or an entropic loss that overflows on the
+        # first batch.  The counts (optimiser steps, criterion evaluations, history length) are compared with the model exactly as
+        # always; the numbers up to the first epoch in which a loss / gradient / parameter is non-finite or beyond 1e100
+        diverge = g.weighted([(None, 6), ("lr", 1), ("scale", 1)])
+        if diverge == "lr":
+            lr = g.choice([1e150, 1e300])
+            okw["lr"] = lr
+        if diverge == "scale":
+            crit_name = "eloss"
+        sfx = ("" if call_form == "keyword" else ":positional") + (":nonfinite-loss" if diverge else "")
+        case = {"fit_num": True, "call_form": call_form, "diverge": diverge, "epochs": k, "n_paths": n_paths, "n_steps": n_steps, "n_times": n_times, "validation": validation,
                 "opt": optkind, "optimizer": optname, "lr": lr, "momentum": momentum, "weight_decay": wd, "H": H, "inputs": names,
                 "relu_mlp": relu, "hidden": hid if relu else None, "criterion": crit_name, "a": a, "es_k": kk, "call": call, "strike": strike,
                 "cost": cost, "cost2": cost2 if H == 2 else None, "listed_pricer": [pa, pb] if H == 2 else None, "with_init": with_init, "seed": seed}
@@ -551,6 +696,11 @@ def check_fit_num(ctx, torch):
                 model = torch.nn.Sequential(torch.nn.Linear(width, hid, dtype=dt), torch.nn.ReLU(), torch.nn.Linear(hid, H, dtype=dt))
             else:
                 model = torch.nn.Linear(width, H, dtype=dt)
+            if diverge == "scale":
+                with torch.no_grad():
+                    last = model[2] if relu else model
+                    last.weight *= 2.0 ** 40
+                    last.bias *= 2.0 ** 40
             crit = {"erm": lambda: nn.EntropicRiskMeasure(a), "es": lambda: nn.ExpectedShortfall(kk / n_paths),
                     "eloss": lambda: nn.EntropicLoss(a), "mse": lambda: torch.nn.MSELoss()}[crit_name]()
             stock = I.BrownianStock(cost=cost, dtype=dt)
@@ -588,8 +738,8 @@ def check_fit_num(ctx, torch):
         opt = TheOpt if optkind == "cls" else TheOpt(model.parameters())
         theta0 = [p.detach().clone() for p in model.parameters()]
         torch.manual_seed(seed + 1)
-        st, hist, _ = call_impl(hedger.fit, d, hedge=hedge, n_epochs=k, n_paths=n_paths, n_times=n_times, optimizer=opt,
-                                init_state=init_state, verbose=False, validation=validation)
+        st, hist, _ = call_fit(hedger.fit, d, call_form, hedge=hedge, n_epochs=k, n_paths=n_paths, n_times=n_times, optimizer=opt,
+                               init_state=init_state, verbose=False, validation=validation)
         # ---- the twin: the batches of the run, re-simulated under the same seed, and the kinks on the reference trajectory
         model2, crit2, d2, stock2, hedge2 = build()
         hedger2 = Hedger(model2, list(names), criterion=crit2)
@@ -637,31 +787,47 @@ def check_fit_num(ctx, torch):
             return False
         epochs_json, kink, small_grad = [], False, False
         torch.manual_seed(seed + 1)
-        for ep in range(k):
-            hedger2.train()
-            ref_opt.zero_grad()
-            d2.simulate(n_paths=n_paths, init_state=init_state)
-            ej = {"train": batch_json(), "val": None}
-            kink = kink or near_kink()
-            loss = crit2(hedger2.compute_portfolio(d2, hedge=hedge2), d2.payoff())
-            loss.backward()
-            if optname == "Adam":
-                # Adam divides by sqrt(g^2) + 1e-8: a gradient component that is zero up to rounding has no stable update
-                for p_ in model2.parameters():
-                    gabs = p_.grad.abs()
-                    small_grad = small_grad or bool(((gabs < 1e-6) & (gabs > 0)).any())
-            ref_opt.step()
-            if validation:
-                hedger2.eval()
-                vals = []
-                with torch.no_grad():
-                    for _ in range(n_times):
-                        d2.simulate(n_paths=n_paths, init_state=init_state)
-                        vals.append(batch_json())
-                        kink = kink or (crit_name == "es" and near_kink())
-                ej["val"] = vals
-            epochs_json.append(ej)
-        for key_ in (f"fit_num:opt={optkind}/{optname}", f"fit_num:epochs={k}", f"fit_num:crit={crit_name}", f"fit_num:H={H}",
+        twin_err = None
+        try:
+            for ep in range(k):
+                hedger2.train()
+                ref_opt.zero_grad()
+                d2.simulate(n_paths=n_paths, init_state=init_state)
+                ej = {"train": batch_json(), "val": None}
+                kink = kink or near_kink()
+                loss = crit2(hedger2.compute_portfolio(d2, hedge=hedge2), d2.payoff())
+                loss.backward()
+                if optname == "Adam":
+                    # Adam divides by sqrt(g^2) + 1e-8: a gradient component that is zero up to rounding has no stable update
+                    for p_ in model2.parameters():
+                        gabs = p_.grad.abs()
+                        small_grad = small_grad or bool(((gabs < 1e-6) & (gabs > 0)).any())
+                ref_opt.step()
+                if validation:
+                    hedger2.eval()
+                    vals = []
+                    with torch.no_grad():
+                        for _ in range(n_times):
+                            d2.simulate(n_paths=n_paths, init_state=init_state)
+                            vals.append(batch_json())
+                            kink = kink or (crit_name == "es" and near_kink())
+                    ej["val"] = vals
+                epochs_json.append(ej)
+        except Exception as e:  # noqa
+            if not diverge:
+                raise
+            twin_err = canon_error(e)
+        if st != "ok" and twin_err == hist:
+            ctx.stats["fit_num:diverge:explicit_loop_raises_too"] += 1          # torch / the optimiser itself refuses the run
+            continue
+        if st != "ok" or twin_err is not None:
+            ctx.fail("fit raised" + (" in a run whose losses become inf / nan (it must carry on for k epochs and return them)" if diverge else "")
+                     if st != "ok" else "fit returned normally where the explicit loop under the same seed raises",
+                     case, key=("fit:error" if st != "ok" else "fit:reference-loop") + sfx,
+                     detail={"error": hist if st != "ok" else twin_err, "optimiser_steps_done": len(seen_grads)})
+            if twin_err is not None:
+                continue
+        for key_ in (f"fit_num:call_form={call_form}", f"fit_num:diverge={diverge}", f"fit_num:opt={optkind}/{optname}", f"fit_num:epochs={k}", f"fit_num:crit={crit_name}", f"fit_num:H={H}",
                      f"fit_num:prev_hedge={prev}", f"fit_num:cost>0={cost > 0 or (H == 2 and cost2 > 0)}", f"fit_num:validation={validation}"):
             ctx.stats[key_] += 1
         if kink or small_grad:
@@ -726,6 +892,25 @@ def check_fit_num(ctx, torch):
             checks.append(("returned validation history", [float(x) for x in hist], m_hist))
         for ep, (ga, gb) in enumerate(zip(grads, m_grads)):
             checks.append((f"gradient at the optimiser step of epoch {ep}", ga, gb))
+        if case["diverge"]:
+            # the same quantities in the order of the run, cut at the first one that is non-finite or beyond BIG on either side (the
+            # numeric model is tied to the code on ordinary floats: logsumexp vs log-sum-exp, forward- vs reverse-mode products 0 * inf
+            # ... are free to differ there); the counts above were compared in full
+            chrono = []
+            for ep in range(k):
+                chrono.append((f"training loss of epoch {ep}", [train[ep]], [m_train[ep]]))
+                chrono.append((f"gradient at the optimiser step of epoch {ep}", grads[ep], m_grads[ep]))
+                if validation:
+                    chrono.append((f"validation evaluations of epoch {ep}", evals[ep * n_times:(ep + 1) * n_times], m_evals[ep * n_times:(ep + 1) * n_times]))
+                    chrono.append((f"returned validation loss of epoch {ep}", [float(hist[ep])], [m_hist[ep]]))
+            chrono.append(("parameters after fit", final, m_final))
+            checks = []
+            for item in chrono:
+                if not all(math.isfinite(x) and abs(x) <= BIG for x in list(item[1]) + list(item[2])):
+                    break
+                checks.append(item)
+            ctx.stats["fit_num:diverge:quantities_compared_before_leaving_the_ordinary_range"] += len(checks)
+            ctx.stats["fit_num:diverge:really_nonfinite" if not all(math.isfinite(x) for x in train + evals + final) else "fit_num:diverge:stayed_finite"] += 1
         for what, impl, model_ in checks:
             r = rel(impl, model_)
             if r != float("inf"):
